@@ -283,7 +283,109 @@ func flagSet(bits int) rt.ComplianceFlags {
 	return f
 }
 
+// runPlant: code that is only ever handed to a context requiring iosafe plants something the runtime
+// itself runs later - a finaliser, a debug hook - and leaves.  The host then goes on unrestricted
+// (allocates, collects, closes the runtime).  Whatever was planted must not get to act on the outside
+// once the context that confined it is gone: the sentinel stays as it was.
+func runPlant(ctx *core.RunCtx) {
+	g := ctx.Gen
+	log := core.GetLog()
+	defer core.PutLog(log)
+	s := core.NewSched(core.ReplayTape(nil), 0)
+	s.Begin()
+	h := harness.NewHost(s, log)
+	closed := false
+	defer func() {
+		if !closed {
+			s.Reap(h.R.MainThread())
+			h.Close()
+		}
+		s.End()
+		s.Release()
+	}()
+	sen := newSentinel(uint64(g.Choose(1 << 30)))
+	if sen == nil {
+		return
+	}
+	defer sen.restore()
+	target := filepath.Join(sen.dir, "planted.txt")
+	payload := fmt.Sprintf(`local f = io.open(%q, "w") if f then f:write("x") f:close() end os.remove(%q) pcall(io.popen, "touch %s/planted-by-process")`, target, filepath.Join(sen.dir, "secret.txt"), sen.dir)
+	mechs := []struct{ name, plant string }{
+		{"finaliser-of-dropped-value", `setmetatable({}, {__gc = function() ` + payload + ` end})`},
+		{"finaliser-of-kept-value", `PLANTED = setmetatable({}, {__gc = function() ` + payload + ` end})`},
+		{"finaliser-of-userdata-metatable-shared", `local mt = {__gc = function() ` + payload + ` end} for i = 1, 3 do setmetatable({}, mt) end`},
+		{"line-hook", `debug.sethook(function() debug.sethook() ` + payload + ` end, "l")`},
+		{"call-hook", `debug.sethook(function() debug.sethook() ` + payload + ` end, "c")`},
+		{"return-hook", `debug.sethook(function() debug.sethook() ` + payload + ` end, "r")`},
+		{"count-hook", `debug.sethook(function() debug.sethook() ` + payload + ` end, "", 3)`},
+		{"hook-on-coroutine-left-suspended", `PLANTEDCO = coroutine.create(function() coroutine.yield() end) coroutine.resume(PLANTEDCO) debug.sethook(PLANTEDCO, function() debug.sethook() ` + payload + ` end, "l")`},
+		// (a __close handler of a coroutine left suspended is not in the list: it only runs when the host
+		// itself closes that coroutine, which is the host's decision like calling a function it was given)
+	}
+	m := mechs[g.Choose(len(mechs))]
+	flags := rt.ComplyIoSafe | flagSet(g.Choose(8))
+	def := rt.RuntimeContextDef{RequiredFlags: flags}
+	if g.Chance(1, 4) {
+		def.HardLimits = rt.RuntimeResources{Cpu: 1000000, Memory: 10000000}
+	}
+	wrap := g.Choose(3)
+	src := m.plant
+	switch wrap {
+	case 1:
+		src = "pcall(function() " + src + " end)"
+	case 2:
+		src = "coroutine.wrap(function() " + src + " end)()"
+	}
+	ctx.Sample = fmt.Sprintf("-- mechanism %s, context %v limits %v\n%s", m.name, flags.Names(), def.HardLimits, src)
+	ctx.Trivial = false
+	ctx.Shape = core.HashString(ctx.Sample)
+	ctx.Count("planted."+m.name, 1)
+	clos, cerr, cpan := h.Compile("untrusted", src)
+	if cerr != nil || cpan != nil {
+		ctx.Fail("C08", "C08.H", "harness", "untrusted chunk does not compile: %v %v", cerr, cpan)
+		return
+	}
+	th := h.R.MainThread()
+	var pan interface{}
+	func() {
+		defer func() { pan = recover() }()
+		th.CallContext(def, func() error {
+			return rt.Call(th, rt.FunctionValue(clos), nil, rt.NewTerminationWith(nil, 0, true))
+		})
+	}()
+	if pan != nil {
+		if _, ok := pan.(rt.ContextTerminationError); !ok {
+			ctx.Fail("C08", "C08.P", "panic", "Go panic while the untrusted chunk ran: %v", pan)
+			return
+		}
+	}
+	if ch := sen.changed(); ch != "" {
+		ctx.Fail("C08", "C08.G2", "outside-effect:planted-"+m.name, "the sentinel directory changed (%s) while the code ran inside the context requiring %v", ch, flags.Names())
+		return
+	}
+	// the context is gone; the host carries on without restrictions
+	out := h.Run("host", `local t = {} for i = 1, 200 do t[i] = {i} end local function f(x) return x + 1 end for i = 1, 20 do f(i) end collectgarbage() collectgarbage() return #t`)
+	if out.Panic != nil {
+		ctx.Fail("C08", "C08.P", "panic", "Go panic in host code after the context: %v", out.Panic)
+		return
+	}
+	if g.Chance(1, 2) {
+		h.Run("host2", `if PLANTEDCO then coroutine.close(PLANTEDCO) end PLANTED = nil collectgarbage()`)
+	}
+	s.Reap(h.R.MainThread())
+	h.Close()
+	closed = true
+	if ch := sen.changed(); ch != "" {
+		ctx.Fail("C08", "C08.G4", "deferred-effect:"+m.name, "code handed only to a context requiring %v acted on the outside after that context had ended (%s): planted through %s, wrap=%d, limits=%v", flags.Names(), ch, m.name, wrap, def.HardLimits)
+		return
+	}
+}
+
 func runFlags(ctx *core.RunCtx) {
+	if ctx.Mode == "plant" {
+		runPlant(ctx)
+		return
+	}
 	g := ctx.Gen
 	log := core.GetLog()
 	defer core.PutLog(log)
